@@ -224,7 +224,7 @@ pub fn shrink_config(_prop: &str, cfg: &Config) -> Vec<Config> {
 
 pub fn sweep_bases(prop: &str, tier: Tier) -> u64 {
     match (prop, tier) {
-        ("C05" | "C06" | "C08", Tier::Quick) => 48,
+        ("C05" | "C06" | "C08", Tier::Quick) => 40,
         ("C05" | "C06" | "C08", Tier::Thorough) => 3000,
         _ => 0,
     }
@@ -1140,13 +1140,13 @@ pub fn required_probes(prop: &str, tier: Tier) -> Vec<&'static str> {
 
 pub fn describe(prop: &str) -> Describe {
     let rule = match prop {
-        "C01" => "seeded schedules of client connects (TCP/UDS, 1..2 listeners), accept-loop iterations, worker polls, LocalSet ticks, connection completions, pause/resume and stop commands over the real server with 1..3 workers and limits 1..3; connection ledger checked online (wrong service / double call / served after shutdown) and after a drain phase (lost / leaked); non-trivial = at least one dispatch and one completion; distinct = distinct event-trace hash",
+        "C01" => "seeded schedules of client connects (TCP/UDS, 1..2 listeners), accept-loop iterations, worker polls, LocalSet ticks, connection completions, pause/resume and stop commands over the real server with 1..3 workers and limits 1..3; connection ledger checked online (wrong service / double call / served after shutdown / dropped while handles remain), at quiescent states after a graceful stop (queued connections must already be closed) and after a drain phase (lost / leaked); non-trivial = at least one dispatch and one completion; distinct = distinct event-trace hash",
         "C02" => "seeded schedules incl. worker-side progress inside the send->increment window; per-worker `dispatched - finished <= limit` after every action and at every service call, fault-free runs; limits 1..4, 1..3 workers, <=16 connections; non-trivial = >=1 dispatch and >=1 completion",
         "C03" => "same schedules as C02; at every quiescent state (no enabled internal action, no timer, not paused) no client may be waiting while a worker in the rotation has spare capacity; non-trivial = >=1 dispatch and >=1 completion",
-        "C04" => "dispatch log of fault-free schedules: every window of W consecutive dispatches made while the accept loop's own view had all W workers available goes to W distinct workers, and no dispatch targets a worker already at its limit; plus seeded set/get histories on the real availability bit set over indices 0..512 against a boolean-array model; non-trivial = >=1 dispatch and >=1 completion (or >=2 bit operations)",
-        "C05" => "seeded command storms (pause/resume, unmatched, repeated), injected accept errors of each kind (EMFILE, ENFILE, ENOBUFS, ENOMEM back-off class; ECONNABORTED/RESET/REFUSED per-connection class), clock advances and connects on TCP and UDS listeners; fault-point sweeps insert each fault at every position of sampled fault-free histories; oracles: no accept in an iteration that began and ended paused, per-connection errors arm no back-off and delay nothing, and after the drain phase every listener accepts a fresh client; non-trivial = >=1 dispatch and >=1 command or fault",
-        "C06" => "stop(graceful/forced), second stop, dropped stop future, real SIGTERM/SIGINT/SIGQUIT raised in-process, at every position of sampled histories (sweeps) with 0..3 connections in progress, completion times before/at/after the shutdown timeout in virtual time; oracles: graceful never completes while a worker is busy before the timeout, forced completes with zero clock advance, every stop future and the Server future resolve, nothing is dispatched after completion; non-trivial = a stop was issued",
-        "C07" => "scripted poll_ready (Ok/Pending/Err flipped by simulator actions with a wake) for 1..3 services per worker, factories needing 0..2 polls; oracles on the per-worker event log: a call is immediately preceded by a full all-ready round, a failed readiness check re-creates exactly that service, failed instances are never used again, queued connections are all served after readiness returns; non-trivial = >=1 dispatch and a service polled more than once",
+        "C04" => "dispatch log of fault-free schedules: every window of W consecutive dispatches made while the accept loop's own view had all W workers available goes to W distinct workers; from a quiescent state in which no worker of the full rotation is saturated the next W dispatches made before any completion go to W distinct workers (independent of the accept loop's view); no dispatch targets a worker already at its limit; pause/resume included; plus seeded set/get histories on the real availability bit set over indices 0..512 against a boolean-array model; non-trivial = >=1 dispatch and >=1 completion (or >=2 bit operations)",
+        "C05" => "seeded command storms (pause/resume, unmatched, repeated), injected accept errors of each kind (EMFILE, ENFILE, ENOBUFS, ENOMEM back-off class; ECONNABORTED/RESET/REFUSED per-connection class), clock advances and connects on TCP and UDS listeners; fault-point sweeps insert each fault at every position of sampled fault-free histories; stop is part of the command alphabet; oracles: nothing is accepted while the accept loop is paused once the pause has taken effect in an earlier iteration, per-connection errors arm no back-off and delay nothing, every pause()/resume() future is acknowledged, and after the drain phase every listener accepts a fresh client; non-trivial = >=1 dispatch and >=1 command or fault",
+        "C06" => "stop(graceful/forced), second stop, dropped stop future, real SIGTERM/SIGINT/SIGQUIT raised in-process, at every position of sampled histories (sweeps) with 0..3 connections in progress, completion times before/at/after the shutdown timeout in virtual time; oracles: graceful never completes while a worker is busy before the timeout, forced completes with zero clock advance (through a signal: within the 300 ms exit delay after the server handled it), every stop future and the Server future resolve, nothing is dispatched after completion; non-trivial = a stop was issued",
+        "C07" => "scripted poll_ready (Ok/Pending/Err flipped by simulator actions with a wake) for 1..3 services per worker, factories needing 0..2 polls; oracles on the per-worker event log: a call is immediately preceded by a full all-ready round, a failed readiness check re-creates exactly that service, failed instances are never used again, queued connections are all served after readiness returns and in dispatch order per worker; non-trivial = >=1 dispatch and a service polled more than once",
         "C08" => "worker kills (dropped future / panic inside a service call) at any point incl. sweeps over every position of sampled histories, arbitrarily late completion of a dead worker's connections (stale availability notifications), replacement arriving through the real WorkerFaulted path; oracles: accept loop never panics or spins, no connection dropped while handles remain, dead handle removed, replacement with the same index rejoins the rotation and serves, fresh clients are served at the end; non-trivial = >=1 dispatch and >=1 kill",
         _ => "",
     };
